@@ -344,6 +344,9 @@ def exec_for(eng, node, fr):
         for pname in getattr(spec, "establishes", []):
             eng.oblige("%s/establishes:%s" % (label, pname), eng.reg.elem_preds[pname](eng, eng.force(x)),
                        clause="an element that passes one full iteration satisfies %s" % pname, kind="loop-inv")
+        for nm, text in getattr(spec, "body_post", ()) or ():
+            # a statement about the element just processed (the arbitrary element of the iterated collection)
+            eng.oblige("%s/each-iteration:%s" % (label, nm), eval_inv(eng, text, fr), clause=text, kind="loop-inv")
         fr.env[idx_name] = VInt(i.t + 1)
         for nm, text in spec.invariants:
             eng.oblige("%s/inv-preserved:%s" % (label, nm), eval_inv(eng, text, fr), clause=text, kind="loop-inv")
